@@ -13,7 +13,8 @@ CLAIM = dict(
               "(k vs k+G; random_gauge on/off through evaluate_k and run())",
     text="PARTIAL. Proved: (k+G)%1 = k%1 and k_to_1BZ(k+G) = k_to_1BZ(k) for integer G, exp(2 pi i (k+G).R) = "
          "exp(2 pi i k.R) (and the N-th-root-of-unity version for FFT grids), hence equal Fourier sums; tr(U^H X U) = tr X; "
-         "products A_nl B_ln, the nn and ln blocks of Matrix_GenDer_ln and the complete Omega.nn (internal and external "
+         "products A_nl B_ln and chains of ANY number of inner factors (FormulaProduct.nn/trace, also on the executable "
+         "model; closing the chain with a transposed last factor is shown NOT invariant), the nn and ln blocks of Matrix_GenDer_ln and the complete Omega.nn (internal and external "
          "terms) are covariant under unitary rotations of the inner and of the outer states, so their traces are gauge "
          "invariant; D_H is covariant under every unitary that mixes only states of exactly equal energy; Data_K.degen "
          "groups have >= 2 bands with all internal gaps <= threshold and the random gauge touches no other column.  "
@@ -24,7 +25,7 @@ CLAIM = dict(
 )
 TRUSTED = [
     "modelled: Data_K.kpoints_all (% 1), SystemKP.k_to_1BZ, expdK on the quarter grid, Data_K.degen, Data_K._rotate, "
-    "the column mixing of Data_K.UU_K(random_gauge)",
+    "the column mixing of Data_K.UU_K(random_gauge), FormulaProduct.nn/trace for Matrix_ln factors (1-4 factors)",
     "proved at matrix level (Mathlib), not extracted from the code: Formula_ln.trace, Matrix_GenDer_ln.nn/ln, Omega.nn, D_H",
     "not modelled (oracle only): eigh, R_to_k/FFT, the other covariant formulas, calculators' accumulation, run()",
     "numpy float arithmetic on dyadic inputs is exact (used for exact comparisons in the correspondence)",
@@ -33,7 +34,10 @@ RULE = ("corr: dyadic k/grid points with integer shifts of both signs, quarter-g
         "multiplets (gaps 0, below, at and above the threshold), Gaussian-dyadic matrices of size 2-5, 1-3 k-points with "
         "recorded 'random' group matrices; oracle: random Hermitian systems with Ham, AA, BB, CC, SS (2-5 Wannier "
         "functions), random k and G of both signs, k.p systems, systems with exact doublets/triplets (paired and unpaired "
-        "centres), 14 tabulators and 9 integrated calculators.  non-trivial = G != 0 / at least one multiplet is rotated; "
+        "centres), systems tuned to have an exact 2- or 3-fold band-touching point on a grid k-point (velocity block not "
+        "proportional to 1, checked), 16 tabulators, every FormulaProduct/FormulaSum of formula.covariant as a tabulator "
+        "and every StaticCalculator that can be evaluated (found by introspection; 27 of 34, incl. the three-factor "
+        "Hall_classic_FermiSurf, NLDrude_Fermider2, eMChA_FermiSurf).  non-trivial = G != 0 / at least one multiplet is rotated; "
         "distinct = distinct (kind, seed, parameters)")
 
 
@@ -186,13 +190,31 @@ def corr(ctx):
         got0 = Data_K.__dict__["UU_K"].func(st)
         if not np.array_equal(got0, st._UU):
             ctx.fail("UU_K with random_gauge=False modifies the eigenvectors", case)
+    # ---- FormulaProduct.trace: products of 1-4 factors traced over an inner set --------------------
+    from wannierberri.formula.formula import FormulaProduct, Matrix_ln
+    from wannierberri.symmetry.point_symmetry import transform_ident
+    for it in range(ctx.n(30, 300)):
+        N = rng.randint(2, 4)
+        nf = rng.randint(1, 4)
+        mats = [gmat(rng, N, den=2, lim=3) for _ in range(nf)]
+        inn = sorted(rng.sample(range(N), rng.randint(1, N)))
+        out_ = [i for i in range(N) if i not in inn]
+        case = dict(factors=[to_np(*m) for m in mats], inn=inn)
+        with ctx.attempt("FormulaProduct.trace", case):
+            fs = [Matrix_ln(to_np(*m)[None], transformTR=transform_ident, transformInv=transform_ident) for m in mats]
+            val = FormulaProduct(fs).trace(0, np.array(inn, dtype=int), np.array(out_, dtype=int))
+            add("ptrace " + ints(inn) + " " + " ".join(ratss(m[0]) + " " + ratss(m[1]) for m in mats), "retrace",
+                float(val), case)
+        ctx.count(f"corr.product_factors={nf}")
     out = ctx.lean(lines)
     for line, o, (kind, code, case) in zip(lines, out, checks):
         ctx.case(signature=line, nontrivial=True)
         if o == "bad-op":
             ctx.mismatch("model rejected the line", dict(line=line[:300]))
             continue
-        if kind == "exactvec":
+        if kind == "retrace":
+            ok = float(Fr(o.split(",")[0])) == code
+        elif kind == "exactvec":
             ok = [Fr(x) for x in o.split(",")] == list(code)
         elif kind == "pairs":
             want = [] if o == "_" else [tuple(int(x) for x in p.split(",")) for p in o.split(";")]
@@ -405,7 +427,144 @@ def case_gauge_run(ctx, case):
                 ta.results[name].data, tb.results[name].data, dict(case, quantity=name, NK=NK))
 
 
-RUNNERS = {"periodic": case_periodic, "periodic_kp": case_periodic_kp, "gauge_k": case_gauge_k, "gauge_run": case_gauge_run}
+_PROD_OK = {}
+
+
+def product_tabulators(ctx, s):
+    """a Tabulator for every FormulaProduct / FormulaSum class of formula.covariant (found by introspection) that can
+    be evaluated on this kind of system (probed once; those needing matrices the system lacks are skipped)"""
+    import inspect
+    from ..wbsys import wb
+    from wannierberri.formula import covariant as frml
+    from wannierberri.formula.formula import FormulaProduct, FormulaSum
+    from wannierberri.calculators.tabulate import Tabulator
+    key = tuple(sorted(s._XX_R))
+    if key not in _PROD_OK:
+        ok = []
+        for name, cls in inspect.getmembers(frml, inspect.isclass):
+            if issubclass(cls, (FormulaProduct, FormulaSum)) and cls not in (FormulaProduct, FormulaSum):
+                try:
+                    with quiet():
+                        wb.evaluate_k(s, k=np.array([0.1, 0.2, 0.3]), calculators={name: Tabulator(cls)})
+                    ok.append(name)
+                except ValueError as e:
+                    if "are not set in the system" not in str(e):
+                        raise
+                    ctx.count(f"oracle.formula_skipped.{name}")
+        _PROD_OK[key] = ok
+    return {"product:" + name: Tabulator(getattr(frml, name)) for name in _PROD_OK[key]}
+
+
+_STATIC_OK = {}
+
+
+def all_static(ctx, s, Ef):
+    """every StaticCalculator of calculators.static that can be built from Efermi alone and evaluated on this kind of
+    system (probed once on a single k-point; the ones needing matrices the system does not have are skipped)"""
+    import inspect
+    from ..wbsys import wb
+    from wannierberri.calculators import static as S
+    key = tuple(sorted(s._XX_R))
+    if key not in _STATIC_OK:
+        ok = []
+        for name, cls in inspect.getmembers(S, inspect.isclass):
+            if not (issubclass(cls, S.StaticCalculator) and cls is not S.StaticCalculator) or name.startswith("_"):
+                continue
+            try:
+                with quiet():
+                    wb.evaluate_k(s, k=np.array([0.1, 0.2, 0.3]), calculators={name: cls(Efermi=Ef)})
+                ok.append(name)
+            except Exception as e:  # noqa
+                ctx.count(f"oracle.static_skipped.{name}")
+        _STATIC_OK[key] = ok
+    return {name: getattr(S, name)(Efermi=Ef) for name in _STATIC_OK[key]}
+
+
+def touching_system(rs, nw, k0, m):
+    """random Hermitian system (all external matrices) tuned so that m bands touch exactly at k0 (a band-touching
+    point: inside the multiplet the velocity block is not proportional to the unit matrix)"""
+    from ..wbsys import rand_system
+    from .c27 import tune_spectrum
+    with quiet():
+        s = rand_system(rs, num_wann=nw, nR=int(rs.randint(3, 6)), max_R=1, matrices=ALLMAT)
+    i0 = int(rs.randint(0, nw - m + 1))
+
+    def modify(e):
+        for j in range(1, m):
+            e[i0 + j] = e[i0]
+        for j in range(i0 + m, len(e)):
+            e[j] = max(e[j], e[i0] + 0.4)
+        for j in range(i0):
+            e[j] = min(e[j], e[i0] - 0.4)
+        return e
+    e2 = tune_spectrum(s, k0, modify)
+    return s, i0, e2
+
+
+def velocity_block_nonscalar(s, k0, i0, m):
+    from ..wbsys import wb
+    from wannierberri.formula.covariant import Velocity
+    with quiet():
+        v = wb.evaluate_k(s, k=np.array(k0, dtype=float), formula={"v": Velocity}, iband=list(range(i0, i0 + m)))
+    dev = v - np.einsum("nnc->c", v)[None, None, :] / m * np.eye(m)[:, :, None]
+    return float(np.abs(dev).max())
+
+
+def case_touch_k(ctx, case):
+    """random gauge at a band-touching point: all tabulators, and every product / sum formula (2, 3, ... factors)"""
+    from ..wbsys import wb
+    from wannierberri.calculators.tabulate import TabulatorAll
+    rs = np.random.RandomState(case["seed"])
+    k0 = np.array(case["k0"], dtype=float)
+    s, i0, e2 = touching_system(rs, case["nw"], k0, case["m"])
+    dev = velocity_block_nonscalar(s, k0, i0, case["m"])
+    ctx.case(signature=("touch_k", case["seed"], case["nw"], case["m"], tuple(case["k0"])), nontrivial=dev > 1e-3)
+    ctx.count("oracle.touch.velocity_block_nonscalar" if dev > 1e-3 else "oracle.touch.velocity_block_SCALAR")
+    from wannierberri.calculators.tabulate import TabulatorAll
+    res = []
+    for rg in (False, True):
+        tabs = dict(tabulators())
+        tabs.update(product_tabulators(ctx, s))
+        with quiet():
+            np.random.seed(case["seed"] % 10000 + 7)
+            r = wb.evaluate_k(s, k=k0, calculators={"tab": TabulatorAll(tabs, mode="grid")},
+                              parameters_K={"random_gauge": rg})
+        res.append(r.results)
+    for name in res[0]:
+        compare(ctx, f"{name} at a {case['m']}-fold band-touching point k={k0.tolist()} with random_gauge=True vs False",
+                res[0][name].data, res[1][name].data, dict(case, quantity=name, levels=e2, velocity_block_deviation=dev))
+
+
+def case_touch_run(ctx, case):
+    """run() on a grid containing a band-touching point, Fermi window around the touching energy: every static
+    calculator that can be evaluated (incl. the three-factor ones), random gauge on/off"""
+    from ..wbsys import wb
+    rs = np.random.RandomState(case["seed"])
+    k0 = np.array(case["k0"], dtype=float)
+    s, i0, e2 = touching_system(rs, case["nw"], k0, case["m"])
+    dev = velocity_block_nonscalar(s, k0, i0, case["m"])
+    et = e2[i0]
+    Ef = np.linspace(et - 0.3, et + 0.3, 7)
+    NKFFT = np.array(s.NKFFT_recommended)
+    NKFFT = NKFFT + (NKFFT % 2)          # even, so that k0 with components 0 or 1/2 is a grid point
+    NK = NKFFT * np.array(case["NKdiv"])
+    res = []
+    for rg in (False, True):
+        calcs = all_static(ctx, s, Ef)
+        with quiet():
+            np.random.seed(case["seed"] % 10000 + 3)
+            grid = wb.Grid(s, NK=NK, NKFFT=NKFFT)
+            res.append(wb.run(s, grid=grid, calculators=calcs, parallel=False, print_Kpoints=False, symmetrize=False,
+                              parameters_K={"random_gauge": rg}))
+    ctx.case(signature=("touch_run", case["seed"], case["nw"], case["m"], tuple(case["k0"]), tuple(case["NKdiv"])),
+             nontrivial=dev > 1e-3)
+    for name in res[0].results:
+        compare(ctx, f"integrated {name} from run() on a grid containing a {case['m']}-fold band-touching point, "
+                     f"random_gauge=True vs False", res[0].results[name].data, res[1].results[name].data,
+                dict(case, calculator=name, Efermi=Ef, NK=NK, levels=e2, velocity_block_deviation=dev))
+
+
+RUNNERS = {"touch_k": case_touch_k, "touch_run": case_touch_run, "periodic": case_periodic, "periodic_kp": case_periodic_kp, "gauge_k": case_gauge_k, "gauge_run": case_gauge_run}
 
 
 def rand_G(rng):
@@ -440,6 +599,13 @@ def oracle(ctx, scale):
     for _ in range(ctx.n(2, 12) * scale):
         cases.append(dict(kind="gauge_run", seed=rng.getrandbits(31), n0=rng.randint(1, 2), m=rng.choice([2, 2, 3]),
                           paired=rng.random() < 0.5, NKdiv=[rng.randint(1, 2) for _ in range(3)]))
+    K0S = [[0.0, 0.0, 0.0], [0.5, 0.0, 0.0], [0.5, 0.5, 0.5], [0.0, 0.5, 0.5]]
+    for _ in range(ctx.n(5, 40) * scale):
+        cases.append(dict(kind="touch_k", seed=rng.getrandbits(31), nw=rng.randint(3, 5), m=rng.choice([2, 2, 3]),
+                          k0=rng.choice(K0S + [[0.25, 0.125, 0.375]])))
+    for _ in range(ctx.n(2, 10) * scale):
+        cases.append(dict(kind="touch_run", seed=rng.getrandbits(31), nw=rng.randint(3, 4), m=rng.choice([2, 2, 3]),
+                          k0=rng.choice(K0S), NKdiv=[1, 1, 1]))
     for case in cases:
         ctx.count(f"oracle.{case['kind']}")
         with ctx.attempt(f"{case['kind']} case", case):
